@@ -294,9 +294,58 @@ def one_case(rng, res, defect="draw"):
         scen.drop_root(root)
 
 
+def second_evidence_case(rng, res, no):
+    """ONE gpg functionary hands in two pieces of evidence for a step, under two of its signing subkeys: an ordinary link
+    and a delegated layout that does not verify (its own links are missing / it has expired). The threshold (1) is met by
+    the link; the delegated layout is evidence that was handed in and authenticated - it is verified like every other,
+    and the root fails. Both load orders (which subkey carries which) are generated."""
+    if not W.gpg_available():
+        return
+    g = W.gpg_key("two_subs")
+    subs = [x for x in (g.pub.get("subkeys") or {}) if x in W.SIGNING_SUBKEYS]
+    if len(subs) < 2:
+        return
+    if no % 2:
+        subs = subs[::-1]
+    sk_link, sk_lay = W.gpg_key("two_subs", subs[0]), W.gpg_key("two_subs", subs[1])
+    bad = ["sublinks_missing", "expired"][(no // 2) % 2]
+    root = scen.new_root()
+    try:
+        ch = scen.gen_chain(rng, root, n_steps=1, n_insp=0, thresholds=(1,), max_funcs=1, fmt_mode="metablock")
+        ch.closed = False
+        st = ch.steps[0]
+        st["rules"] = ([["ALLOW", "*"]], [["ALLOW", "*"]])
+        st["keys"], st["pubkeys"], st["threshold"] = [g], [g.keyid], 1
+        ch.layout_keys[g.keyid] = g.pub
+        sub = scen.gen_chain(rng, root, n_steps=1, n_insp=0, thresholds=(1,), max_funcs=1, owners=[sk_lay],
+                             prefix=st["name"] + "sub", fmt_mode="metablock")
+        sub.layout_fmt = "metablock"
+        sub.closed = False
+        sub.steps[0]["rules"] = ([["ALLOW", "*"]], [["ALLOW", "*"]])
+        sub.steps[0]["materials"], sub.steps[0]["products"] = st["materials"], st["products"]
+        if bad == "sublinks_missing":
+            sub.steps[0]["links"] = []
+        else:
+            sub.expires = vcommon.expired_instant(rng)
+        st["links"] = [scen.link_spec(sk_link, "metablock", st["name"], st["materials"], st["products"], signer=sk_link, kid=sk_link.keyid),
+                       scen.link_spec(sk_lay, "metablock", st["name"], st["materials"], st["products"], signer=sk_lay, kid=sk_lay.keyid, sub=sub)]
+        desc = {"family": "second_evidence_of_one_functionary", "defect": bad, "layout_under": "later subkey" if no % 2 == 0 else "earlier subkey",
+                "depth": 1, "n_sublayouts": 1, "expected_accept": False}
+        scn = scen.build(ch, root, rng)
+        i, _m, _ = vcommon.run_case(scn, desc, res, True)
+        res.count("second_evidence_%s" % bad)
+        if vcommon.accepted(i):
+            vcommon.oracle_fail(res, scn, desc, "root accepted although a delegated layout handed in by an authorised functionary "
+                                "(second evidence of the same gpg key) does not verify (%s)" % bad, i)
+    finally:
+        scen.drop_root(root)
+
+
 def shard(seed, idx, n, tier):
     res = core.Result()
     rng = core.rng_for(seed, "c06", idx)
+    if idx < 8:
+        second_evidence_case(rng, res, idx)
     # every kind of defect occurs in every run (cycled through, not drawn)
     kinds = [d_ for d_ in dict.fromkeys(DEFECTS) if d_]
     for j in range(n):
